@@ -2,8 +2,16 @@ module verif.local/harness
 
 go 1.20
 
-require gitlab.com/yawning/obfs4.git v0.0.0
+require (
+	gitlab.com/yawning/obfs4.git v0.0.0
+	gitlab.torproject.org/tpo/anti-censorship/pluggable-transports/goptlib v1.5.0
+	golang.org/x/crypto v0.14.0
+)
 
-require github.com/dchest/siphash v1.2.3 // indirect
+require (
+	filippo.io/edwards25519 v1.0.0 // indirect
+	github.com/dchest/siphash v1.2.3
+	gitlab.com/yawning/edwards25519-extra v0.0.0-20231005122941-2149dcafc266 // indirect
+)
 
 replace gitlab.com/yawning/obfs4.git => /repo
